@@ -77,6 +77,7 @@ structure DSt where
   fixH : Bool := true
   fixI : Bool := true
   fixF : Bool := true
+  fixN : Bool := true
   specOnly : Bool := false
   rest : List Byte := []
   env : Option Env := none
@@ -96,15 +97,17 @@ def step (s : DSt) (line : String) : DSt × String :=
     | none => (s, "bad-op")
   | ["data"] => ({ s with bytes := [], env := none, st := none, specOff := 0 }, "ok")
   | ["variant", v] =>
-    -- "new" = the repaired code, "old" = today's code, "spec" = do not run the window model; otherwise three
-    -- letters H I F, upper case = that repair is in (e.g. "HiF": everything but the peek/get repair)
+    -- "new" = the repaired code, "old" = the code before the repairs, "spec" = do not run the window model; otherwise
+    -- letters H I F N, upper case = that repair is in (e.g. "HiFN": everything but the peek/get repair; N = the NaN
+    -- test of ParseNumber on the consumed characters; the spec always uses the repaired grammar)
     match v with
-    | "new" => ({ s with fixH := true, fixI := true, fixF := true, specOnly := false }, "ok")
-    | "old" => ({ s with fixH := false, fixI := false, fixF := false, specOnly := false }, "ok")
+    | "new" => ({ s with fixH := true, fixI := true, fixF := true, fixN := true, specOnly := false }, "ok")
+    | "old" => ({ s with fixH := false, fixI := false, fixF := false, fixN := false, specOnly := false }, "ok")
     | "spec" => ({ s with specOnly := true }, "ok")
     | _ =>
       match v.toList with
-      | [h, i, f] => ({ s with fixH := h == 'H', fixI := i == 'I', fixF := f == 'F', specOnly := false }, "ok")
+      | [h, i, f] => ({ s with fixH := h == 'H', fixI := i == 'I', fixF := f == 'F', fixN := true, specOnly := false }, "ok")
+      | [h, i, f, n] => ({ s with fixH := h == 'H', fixI := i == 'I', fixF := f == 'F', fixN := n == 'N', specOnly := false }, "ok")
       | _ => (s, "bad-op")
   | "open" :: backend :: mb :: mode :: seed :: span :: more =>
     match mb.toNat?, mode.toNat?, seed.toNat?, span.toNat? with
@@ -167,7 +170,7 @@ def step (s : DSt) (line : String) : DSt × String :=
       let s' := { s with specOff := s.specOff + n, rest := s.rest.drop n }
       match s.st with
       | some st =>
-        let (r, st') := runOp env grammar op st
+        let (r, st') := runOp env (if s.fixN then grammar else grammarOld) op st
         ({ s' with st := some st' }, s!"{showRes r} @{st'.offset} | {showRes sr} @{s'.specOff}")
       | none => (s', s!"- @- | {showRes sr} @{s'.specOff}")
     | _, _ => (s, "bad-op")
